@@ -42,6 +42,8 @@ pub struct ExecOpts {
     pub unique_traces: bool,
     /// probe the local context after every guard pop
     pub auto_probe: bool,
+    /// replay of a known finding's witness: nothing is excluded by construction
+    pub strict: bool,
 }
 
 impl ExecOpts {
@@ -55,10 +57,13 @@ impl ExecOpts {
             disabled: !cfg!(feature = "enable"),
             unique_traces: true,
             auto_probe: false,
+            strict: false,
         }
     }
+    /// shapes of known findings that are excluded in every profile (they end the process)
+    const ALWAYS_EXCLUDED: [&'static str; 1] = ["shadowed_builder"];
     pub fn excl(&self, k: &str) -> bool {
-        self.exclude.iter().any(|e| *e == k)
+        self.exclude.iter().any(|e| *e == k) || (!self.strict && Self::ALWAYS_EXCLUDED.contains(&k))
     }
 }
 
@@ -950,17 +955,26 @@ impl VtCtx {
         };
         // builder calls made some time after the span was entered (timing profiles only)
         let late = self.case.opts.brackets && !props.is_empty() && next_shape() % 3 == 0;
-        if (re.is_empty() && !late) || props.is_empty() || self.reentrant_depth > 0 {
+        // the builder call is made while another scope (a collector that is then abandoned) is
+        // open above the span: the properties still belong to the span they are given to
+        let mut shadowed = !props.is_empty() && re.is_empty() && !self.case.opts.disabled && self.reentrant_depth == 0 && s.l % 5 == 0;
+        if shadowed && self.case.opts.excl("shadowed_builder") {
+            // known finding (C07): with debug assertions the call panics and the unwinding panics
+            // again, which ends the process
+            *self.w().h.excluded.entry("shadowed_builder").or_insert(0) += 1;
+            shadowed = false;
+        }
+        if (re.is_empty() && !late && !shadowed) || props.is_empty() || self.reentrant_depth > 0 {
             self.enter_local_named(name, props, via);
         } else {
-            self.enter_local_reentrant(name, props, via, re, if late { 40 } else { 0 });
+            self.enter_local_reentrant(name, props, via, re, if late { 40 } else { 0 }, shadowed);
         }
     }
 
     /// `LocalSpan::enter_with_local_parent(name).with_properties(closure)` where the closure uses
     /// the tracing API itself: the span is entered (and modelled) first, the closure's calls run
     /// inside it, then its properties are attached to it
-    fn enter_local_reentrant(&mut self, name: String, props: Vec<(String, String)>, via: &'static str, re: &[Mini], spin_us: u64) {
+    fn enter_local_reentrant(&mut self, name: String, props: Vec<(String, String)>, via: &'static str, re: &[Mini], spin_us: u64, shadowed: bool) {
         let before = self.guards.len();
         self.enter_local_named(name, vec![], via);
         if self.guards.len() != before + 1 {
@@ -980,12 +994,18 @@ impl VtCtx {
         let t0 = self.w().tick();
         let p2 = props.clone();
         let mut hit = false;
+        if shadowed {
+            self.w().h.label("builder_call_under_a_nested_scope");
+        }
         let l2 = self.guarded("LocalSpan::with_properties", |me| {
-            l.with_properties(|| {
+            let above = if shadowed { Some(LocalCollector::start()) } else { None };
+            let l = l.with_properties(|| {
                 hit = true;
                 me.run_re(re);
                 shaped(p2, next_shape())
-            })
+            });
+            drop(above);
+            l
         });
         let mut w = self.w();
         let t1 = w.tick();
